@@ -19,7 +19,7 @@ PROP = {
 }
 
 TYPES = ["optical", "events", "emg", "data3D", "force3D", "platCal", "platData"]
-N = 2  # frames per track
+N = 3  # frames per track
 
 
 class Adapter:
@@ -34,6 +34,26 @@ class Adapter:
     def item(self):
         t, k = self.t, self.tag()
         v = float(k)
+        if t in ("emg", "data3D", "force3D", "platData"):
+            # presence pattern by tag: fully present / wholly missing / gap at the start
+            pat = k % 3
+            fill = lambda shape: np.full(shape, v, dtype="<f4") if pat == 0 else np.full(shape, np.nan, dtype="<f4")  # noqa
+            def arr(shape):
+                a = fill(shape)
+                if pat == 2:
+                    a[-1] = v
+                return a
+            if t == "emg":
+                from basictdf.tdfEMG import EMGTrack
+                return EMGTrack(f"s{k}", arr(N))
+            if t == "data3D":
+                from basictdf.tdfData3D import MarkerTrack
+                return MarkerTrack(f"m{k}", arr((N, 3)))
+            if t == "force3D":
+                from basictdf.tdfForce3D import ForceTorqueTrack
+                return ForceTorqueTrack(f"f{k}", arr((N, 3)), arr((N, 3)), arr((N, 3)))
+            from basictdf.tdfForcePlatformsData import ForcePlatformData
+            return ForcePlatformData(arr((N, 2)), arr((N, 3)), arr(N))
         if t == "optical":
             from basictdf.tdfOpticalSystem import OpticalChannelData
             from basictdf.tdfTypes import CameraViewPort
@@ -159,16 +179,20 @@ class Adapter:
                 it.values[0] = 99.0
                 it.label = "edited"
             elif t in ("emg", "data3D"):
-                it.data[0] = 99.0
+                it.data[:] = 99.0
                 it.label = "edited"
             elif t == "force3D":
-                it.force[0] = 99.0
+                it.application_point[:] = 99.0
+                it.force[:] = 99.0
+                it.torque[:] = 99.0
                 it.label = "edited"
             elif t == "platCal":
                 it.position[0] = 99.0
                 it.label = "edited"
             else:
-                it.force[0] = 99.0
+                it.application_point[:] = 99.0
+                it.force[:] = 99.0
+                it.torque[:] = 99.0
         except (ValueError, TypeError):  # read-only decoded array: numpy refused, nothing changed
             pass
         return True
